@@ -2814,6 +2814,22 @@ def m_string_as_str(it, args, fr, callee):
     raise Unsupported('String::as_str on %r' % (s,))
 
 
+@tmodel('String', 'Deref', 'deref')
+def m_string_deref(it, args, fr, callee):
+    s = _deref_all(args[0])
+    if type(s) is StrV:
+        return s
+    raise Unsupported('String::deref on %r' % (s,))
+
+
+@tmodel('Cow', 'Deref', 'deref')
+@tmodel('PathBuf', 'Deref', 'deref')
+@tmodel('PathBuf', 'Clone', 'clone')
+@tmodel('String', 'Clone', 'clone')
+def m_opaque_clone(it, args, fr, callee):
+    return _deref_all(args[0])
+
+
 @model('core::str::strip_prefix', 'str::strip_prefix')
 def m_str_strip_prefix(it, args, fr, callee):
     s, p = _deref_all(args[0]), _deref_all(args[1])
